@@ -114,6 +114,11 @@ def gen_comp(rng, small=False, heavy_ok=True):
     if rng.random() < 0.15:
         lab = rng.choice(['13C', '15N', 'D', '18O', '2H', 'T', '3H', '17O', '34S', '33S', '37Cl', '81Br'])
         comp[lab] = rng.randint(1, 10)
+    if rng.random() < 0.06:
+        # the same hydrogen isotope under two of its accepted spellings in one composition: the counts add
+        a_, b_ = rng.choice([('D', '2H'), ('2H', 'D'), ('T', '3H'), ('3H', 'T')])
+        comp[a_] = rng.randint(1, 6)
+        comp[b_] = rng.randint(1, 6)
     frac = rng.random() < 0.2
     if frac:
         for sym in list(comp):
@@ -403,6 +408,12 @@ def run(ctx):
             plain = {k2: v for k2, v in comp.items() if k2 not in ('e', 'p', 'n') and v}
             if plain and sum(plain.values()) <= 80:
                 threshold_clause(ctx, st, pt, plain, rng.choice([1e-6, 1e-3, 1e-3, 0.05]), rng.choice([2, 4, 5]))
+    # the corner of the quantifier where an unpruned pattern has more than a million peaks (150 atoms of each of C,H,N,O,S
+    # at resolution 6: ~1.8e6 peaks, 10-20 s): thorough tier only, one case per run
+    if not ctx.quick() and ctx.shard == 0:
+        big = {'C': 150, 'H': 150, 'N': 150, 'O': 150, 'S': 150}
+        check_distribution(ctx, st, pt, big, False, {'distribution_resolution': 6})
+        ctx.sig((sorted(big), 'XL', False, [], ['distribution_resolution']), True)
     # averagine estimate: lightest peak at the requested neutral mass
     for _ in range(ctx.n(200, 4000)):
         m = round(rng.uniform(200, 4000), 3)
